@@ -108,6 +108,8 @@ pub struct Closure {
     pub executed: u32,
     pub unprotected: bool,
     pub captured_drops: u32,
+    pub chain: u32,
+    pub shape: u32,
 }
 
 /// per simulated thread: what the user-level critical section looks like
